@@ -56,13 +56,16 @@ func c01Gen(c *vfCtx, emit func(c01Case)) {
 			emit(c01Case{Family: "A2", Tests: []vfTestExec{{Name: "TestA", Calls: []vfCall{snap(b1), snap(b2)}}}})
 		}
 	}
-	tinyBodies := smallBodies
+	tinyBodies := vfBodies(vfSigmaSmall, 2, 1)
 	if !c.thorough() {
 		tinyBodies = vfBodies(small, 1, 1)
 	}
 	// B: pre-existing file with 1..2 entries of another test, bodies over Σ, then TestA with 1..2 calls
 	for _, p1 := range smallBodies {
-		for _, b1 := range smallBodies {
+		for bi, b1 := range smallBodies {
+			if c.thorough() && bi >= len(tinyBodies) {
+				break // thorough: B2 would otherwise be |small|^2 x |tiny|
+			}
 			emit(c01Case{Family: "B1", Pre: []vfEntry{{ID: "TestB - 1", Body: p1}},
 				Tests: []vfTestExec{{Name: "TestA", Calls: []vfCall{snap(b1)}}}})
 			for _, b2 := range tinyBodies {
@@ -72,9 +75,9 @@ func c01Gen(c *vfCtx, emit func(c01Case)) {
 		}
 	}
 	if c.thorough() {
-		for _, p1 := range smallBodies {
-			for _, p2 := range smallBodies {
-				for _, b1 := range smallBodies {
+		for _, p1 := range tinyBodies {
+			for _, p2 := range tinyBodies {
+				for _, b1 := range tinyBodies {
 					emit(c01Case{Family: "B3", Pre: []vfEntry{{ID: "TestB - 1", Body: p1}, {ID: "TestAB - 1", Body: p2}},
 						Tests: []vfTestExec{{Name: "TestA", Calls: []vfCall{snap(b1), snap("b")}}}})
 				}
